@@ -120,6 +120,12 @@ fn expected(script: &[Step], opts: &[&str]) -> (Vec<Snap>, Vec<Snap>) {
                 with = run(&with, &b);
                 without = run(&without, &b);
             }
+            Step::AcceptSendIdleSend(h, t, _) => {
+                let mut b = h.clone();
+                b.extend_from_slice(t);
+                with = run(&with, &b);
+                without = run(&without, &b);
+            }
             Step::AcceptSend(b) | Step::AcceptJunk(b) => {
                 with = run(&with, b);
                 without = run(&without, b);
@@ -150,6 +156,20 @@ fn split_script(cut: usize, pause_ms: u64) -> Vec<Step> {
     all.push(b'\n');
     let cut = cut.min(all.len() - 1);
     vec![Step::AcceptSplitLine(all[..cut].to_vec(), pause_ms, all[cut..].to_vec())]
+}
+
+/// a healthy peer that stays silent (connection open) after `cut` bytes of the stream of X_0, for longer than
+/// any socket time-out of the reader, and then goes on sending on the same connection; `pre` scripted
+/// faults come first
+fn idle_script(pre: &[usize], cut: usize, real_ms: Option<u64>) -> Vec<Step> {
+    let k = pre.len();
+    let mut all = frames_of(x_addr(k));
+    all.extend_from_slice(frames::df17(5, x_addr(k), frames::me_ident(4, 3, frames::callsign_codes("IDLE"))).hex().as_bytes());
+    all.push(b'\n');
+    let cut = cut.min(all.len() - 1);
+    let mut v: Vec<Step> = pre.iter().enumerate().map(|(i, s)| step_of(*s, i, 9)).collect();
+    v.push(Step::AcceptSendIdleSend(all[..cut].to_vec(), all[cut..].to_vec(), real_ms));
+    v
 }
 
 fn eval_script(ctx: &mut Ctx, syms: &[usize], partial_len: usize) {
@@ -357,6 +377,28 @@ fn run(ctx: &mut Ctx) {
             eval_steps_opts(ctx, split_script(*cut, *ms), json!({"split": cut, "pause_ms": ms, "split_opts": oi}), 0, opts);
         }
     }
+    // a healthy connection that is silent for longer than every socket time-out the reader set (time-outs
+    // compressed 100:1), at a line boundary and in the middle of a line, fresh and after each kind of fault
+    let stream_len = frames_of(x_addr(0)).len();
+    for pre in [&[][..], &[0], &[1], &[2], &[3], &[4]] {
+        for cut in [0usize, 15, stream_len, stream_len + 10] {
+            job += 1;
+            if ctx.mine(job) {
+                ctx.count("silent-healthy-connection");
+                eval_steps(ctx, idle_script(pre, cut, None), json!({"idle_pre": pre, "idle_cut": cut}), 0);
+            }
+        }
+    }
+    if ctx.tier.thorough() {
+        // the same with real time: 35 s of silence, uncompressed time-outs
+        for cut in [stream_len, 15] {
+            job += 1;
+            if ctx.mine(job) {
+                ctx.count("silent-healthy-connection-35s-real");
+                eval_steps(ctx, idle_script(&[], cut, Some(35_000)), json!({"idle_pre": [], "idle_cut": cut, "idle_real_ms": 35_000}), 0);
+            }
+        }
+    }
     if ctx.tier.thorough() {
         if cli::available().is_ok() {
             for sym in 0..5 {
@@ -375,6 +417,12 @@ fn run(ctx: &mut Ctx) {
 fn replay(ctx: &mut Ctx, case: &Value) {
     if let Some(sym) = case.get("cli").and_then(|x| x.as_u64()) {
         cli_script(ctx, sym as usize);
+        return;
+    }
+    if let Some(cut) = case.get("idle_cut").and_then(|x| x.as_u64()) {
+        let pre: Vec<usize> = case.get("idle_pre").and_then(|x| x.as_array()).map(|a| a.iter().filter_map(|x| x.as_u64().map(|v| v as usize)).collect()).unwrap_or_default();
+        let real = case.get("idle_real_ms").and_then(|x| x.as_u64());
+        eval_steps(ctx, idle_script(&pre, cut as usize, real), case.clone(), 0);
         return;
     }
     if let Some(cut) = case.get("split").and_then(|x| x.as_u64()) {
